@@ -352,8 +352,7 @@ def check_closed(ctx, drv, case):
                 ask("expdeg " + dtxt, "tol", [F(x) for x in per_node])
             if not close(avg, want_avg):
                 viol(f"expected_degree(d={ds}) = {float(avg)} but the average over nodes of the summed lambda_e/kappa_e is {float(want_avg)}")
-            if N >= 3:
-                ask("expavg " + dtxt, "tol", [F(avg)])
+            ask("expavg " + dtxt, "tol", [F(avg)])
         # dimension / degree sequences (expected)
         for dyadic in (True, False):
             ds = list(range(2 if dyadic else 3, D + 1))
@@ -366,11 +365,11 @@ def check_closed(ctx, drv, case):
             want_dim = {d: sum(lam_all[d].values()) / kappa(N, d) for d in ds}
             want_keys = [d for d in ds if want_dim[d] > 0]
             got = {int(k): v for k, v in dim.items()}
-            if sorted(got) != want_keys or not all(close(got[d], want_dim[d]) for d in want_keys):
+            # the property fixes the VALUE per size; a size that is listed with value 0 or left out with value 0 is the same claim
+            if any(k not in ds for k in got) or not all(close(got.get(d, 0), want_dim[d]) for d in ds):
                 viol(f"dimension_sequence(expected=True, include_dyadic={dyadic}) = { {k: float(v) for k, v in got.items()} } but the "
                      f"expected counts sum_e lambda_e/kappa_d are { {d: float(want_dim[d]) for d in want_keys} }")
-            if N >= 3:
-                ask("dimseq " + hgxv.enc_list(ds), "dimseq", got)
+            ask("dimseq " + hgxv.enc_list(ds), "dimseq", got)
             if deg is not None:
                 want_deg = [sum(l / kappa(N, d) for d in ds for e, l in lam_all[d].items() if i in e) for i in range(N)]
                 if len(deg) != N or not all(close(x, y) for x, y in zip(deg, want_deg)):
@@ -784,6 +783,18 @@ def replay_known(ctx, drv):
 
 # -------------------------------------------------------------------------------------------------
 
+def safely(ctx, check, drv, case):
+    """an exception while evaluating the implementation's outputs (wrong shape / type from a broken routine) is a finding,
+    not a crash of the tool; a dead Lean driver stays a tool failure"""
+    try:
+        check(ctx, drv, case)
+    except RuntimeError:
+        raise
+    except Exception as e:  # noqa: BLE001
+        ctx.case(repr(("unevaluable", sorted(case.items(), key=lambda kv: kv[0]).__repr__())), False)
+        ctx.violation(case, f"the implementation's output could not be evaluated ({type(e).__name__}: {str(e)[:160]})")
+
+
 def run(ctx):
     drv = ctx.driver() if ctx.model_available else None
     replay_known(ctx, drv)
@@ -796,7 +807,7 @@ def run(ctx):
     todo.sort(key=lambda t: t[0])
     for _, g, c in todo:
         case = g(ctx.rng)
-        c(ctx, drv, case)
+        safely(ctx, c, drv, case)
         if ctx.too_many() or (ctx.time_left() is not None and ctx.time_left() < 8):
             ctx.count("stopped_early_time_or_findings")
             break
@@ -809,10 +820,10 @@ def replay(ctx, case):
     case.pop("n_iter", None)
     kind = case.get("kind")
     if kind == "closed":
-        check_closed(ctx, drv, case)
+        safely(ctx, check_closed, drv, case)
     elif kind == "update":
-        check_update(ctx, drv, case)
+        safely(ctx, check_update, drv, case)
     elif kind == "fit":
-        check_fit(ctx, drv, case)
+        safely(ctx, check_fit, drv, case)
     else:
         raise ValueError("unknown case kind")
